@@ -261,6 +261,17 @@ func (s *Stats) Observe(c *Case, st *Step, r *Result) {
 		if j.Abandoned > 0 {
 			s.Probes["sched:task-alive-at-exit"]++
 		}
+		if j.DelayedReads > 0 {
+			s.FaultFired["F13:slow-source(read delayed in simulated time)"]++
+			nontrivial = true
+			key.WriteString("slow")
+		}
+		if j.TimersFired > 0 {
+			s.Probes["time:timer-fired"] += j.TimersFired
+		}
+		if j.ClockJumps > 0 {
+			s.Probes["time:clock-jump-with-all-tasks-blocked"] += j.ClockJumps
+		}
 		for _, sm := range j.Streams {
 			sig := fmt.Sprintf("z%d,s%d,r%d,j%v", min(sm.ZeroReads, 3), min(sm.ShortReads, 50), min(sm.SplitRune, 9), sm.EOFJoined)
 			if sm.ZeroReads > 0 {
